@@ -754,6 +754,7 @@ class TraceMonitor(Base):
         self.tempdirs = []
         self.handler_closed = 0
         self.solver = None
+        self.snapshot = None
 
     def on_solver(self, solver):
         self.solver = solver
@@ -767,6 +768,18 @@ class TraceMonitor(Base):
 
     def on_handler_close(self, handler):
         self.handler_closed += 1
+
+    def on_handler_closing(self, handler):
+        # output_file=None: the file lives in a TemporaryDirectory that is removed on close, so
+        # read the frames from the still-open file now (what Solution() itself loaded from)
+        if handler.tempdir is not None and handler.output_file is not None:
+            from . import runcheck
+
+            try:
+                handler.output_file.flush()
+                self.snapshot = runcheck.read_frames(handler.output_file)
+            except Exception as exc:  # pragma: no cover
+                self.snapshot_error = repr(exc)
 
     def on_stage_begin(self, name, save):
         self.stages.append(dict(name=name, save=save, updates=[], saves=[], ended=False, ok=None, exc=None, init=None))
